@@ -8,7 +8,7 @@ class Malformed(Exception):
     pass
 
 
-def from_lib(G):
+def from_lib(G, require_start=True):
     """Library CFG -> spec, validity re-checked by oracle code."""
     from gambatools.cfg import CFG, Variable, Terminal, Rule, Alternative
     if not isinstance(G, CFG):
@@ -16,7 +16,7 @@ def from_lib(G):
     V, Sg, R, S = G.V, G.Sigma, G.R, G.S
     if not isinstance(V, (set, frozenset)) or not isinstance(Sg, (set, frozenset)) or not isinstance(R, list):
         raise Malformed('V, Sigma must be sets and R a list')
-    if S not in V:
+    if S not in V and require_start:
         raise Malformed('start variable {!r} not in V'.format(S))
     if set(V) & set(Sg):
         raise Malformed('V and Sigma overlap: {}'.format(sorted(set(V) & set(Sg))))
@@ -65,6 +65,7 @@ def language(spec, n):
     _, V, Sg, rules, S = spec
     Vs = set(V)
     L = {v: set() for v in V}
+    L.setdefault(S, set())
     changed = True
     while changed:
         changed = False
@@ -160,6 +161,16 @@ def is_cnf(spec):
         else:
             return 'long rule {} -> {}'.format(l, ''.join(rhs))
     return None
+
+
+def normalise_simple(spec):
+    """Is the grammar expressible in the simple text format (every used variable has a rule, start owns the first rule)?"""
+    _, V, Sg, rules, S = spec
+    if not rules:
+        return False
+    lhs = {l for l, _ in rules}
+    used_vars = {x for _, rhs in rules for x in rhs if x in V}
+    return used_vars <= lhs and S in lhs and rules[0][0] == S
 
 
 # ---------------------------------------------------------------- spaces
